@@ -782,7 +782,12 @@ class Backend(ABC):
         rule.set_conversion_result(finalized_queries)
         rule.set_conversion_states(states)
 
-        return finalized_queries
+        # A correlation rule that is only referenced by other correlation rules that don't request
+        # generation doesn't emit a query by itself, same as a referenced Sigma rule.
+        if rule._output:
+            return finalized_queries
+        else:
+            return []
 
     @abstractmethod
     def convert_correlation_event_count_rule(
